@@ -22,7 +22,7 @@ def hook(ls, op):
     k = op[0]
     if k in ("remove", "remove_hit", "drop") and "remove_partial" in ls.flags:
         ls.flags.add("_armed")
-    if "_armed" in ls.flags and k in ("probe", "probe_hit") and "time" in qast.features(ls.last_query):
+    if "_armed" in ls.flags and k in ("probe", "probe_hit", "probe_twin") and "time" in qast.features(ls.last_query):
         ls.flags.add("time_probe_after_partial_remove")
     if "_armed" in ls.flags and k == "getters":
         ls.flags.add("getters_after_partial_remove")
